@@ -80,6 +80,10 @@ def check(ctx):
     keep = lambda k: k[0] in ("comp", "mode") or (k[0] == "robot" and k[1].endswith("Init"))
     nn = rr.skeleton_check(ctx, res, keep, "C06.O3", "component on_enable / execute / on_disable bracket and init hooks")
     ctx.add("evaluations", nn)
+    infos, ress = rr.analyse(ctx, shared_class=True)
+    ns = rr.skeleton_check(ctx, ress, keep, "C06.O3", "component bracket when two components are instances of the same class")
+    ctx.floor("paths with two components of one class", ns, 20)
+    ctx.add("same_class_paths", ns)
     infof, resf = rr.analyse(ctx, fault=True)
     nf = rr.fault_skeleton_check(ctx, resf, keep, "C06.O3", "component on_enable / execute / on_disable bracket")
     ctx.floor("single-fault paths", nf, 40)
